@@ -228,7 +228,7 @@ func ruleC19Selector(c *Ctx, r *Result) {
 		if len(ret.Results) != 1 {
 			return "unknown", nil
 		}
-		ld, ok := isLoad(ret.Results[0])
+		ld, ok := isLoad(retOperand(ret, 0))
 		if !ok {
 			return "unknown", nil
 		}
@@ -278,7 +278,7 @@ func ruleC19Selector(c *Ctx, r *Result) {
 		return src, at
 	}
 	confSource := func(ret *ssa.Return) bool {
-		ld, ok := isLoad(ret.Results[0])
+		ld, ok := isLoad(retOperand(ret, 0))
 		if !ok {
 			return false
 		}
@@ -400,7 +400,7 @@ func ruleC19Selector(c *Ctx, r *Result) {
 	// C19.3f IsAllowed
 	if ia := c.Fn(r, "rebalancing.SafetyConstraints.IsAllowed"); ia != nil {
 		for _, ret := range returnsOf(ia) {
-			k, ok := ret.Results[0].(*ssa.Const)
+			k, ok := retOperand(ret, 0).(*ssa.Const)
 			if !ok {
 				r.Viol("C19.3f", c.Name(ia)+"#non-constant-result", c.InstrPos(ret), "result is not a constant decided by the list")
 				continue
@@ -516,7 +516,7 @@ func ruleC19Confidence(c *Ctx, r *Result) {
 	}
 	n := 0
 	for _, ret := range returnsOf(fn) {
-		fr := eval(ret.Results[0])
+		fr := eval(retOperand(ret, 0))
 		n++
 		ok := fr.lo >= 0 && fr.hi <= 1.0000001
 		r.Check(ok, "C19.4", c.Name(fn)+"#return-in-unit-interval", c.InstrPos(ret), "interval of the returned confidence over all paths: ["+ftoa(fr.lo)+", "+ftoa(fr.hi)+"]")
